@@ -44,6 +44,43 @@ func c14ExtensionType(w *World, v int64) bool {
 	return res
 }
 
+// c20KindTest: pf uses its one parameter only in type assertions, or hands
+// it to functions of the module that are kind tests themselves, and calls
+// nothing else ("" = it is a pure kind test).
+func c20KindTest(pf *ssa.Function, depth int) string {
+	if len(pf.Params) != 1 || pf.Blocks == nil || depth > 3 {
+		return "unexpected shape"
+	}
+	for _, ref := range *pf.Params[0].Referrers() {
+		switch x := ref.(type) {
+		case *ssa.TypeAssert, *ssa.DebugRef:
+		case *ssa.Call:
+			g := x.Call.StaticCallee()
+			if g == nil || !strings.HasPrefix(pkgPathOf(g), modPath) || len(x.Call.Args) != 1 {
+				return "hands its argument to `" + ref.String() + "`"
+			}
+			if why := c20KindTest(g, depth+1); why != "" {
+				return "calls " + g.Name() + ", which " + why
+			}
+		default:
+			return "uses its argument in `" + ref.String() + "`"
+		}
+	}
+	for _, bb := range pf.Blocks {
+		for _, ii := range bb.Instrs {
+			ci, isCall := ii.(ssa.CallInstruction)
+			if !isCall {
+				continue
+			}
+			g := ci.Common().StaticCallee()
+			if g == nil || !strings.HasPrefix(pkgPathOf(g), modPath) || len(ci.Common().Args) != 1 || ci.Common().Args[0] != ssa.Value(pf.Params[0]) {
+				return "calls " + ii.String()
+			}
+		}
+	}
+	return ""
+}
+
 func checkC14(w *World, r *Report) {
 	r.NotDecided = []string{
 		"equivalence of deviate add/replace/delete with a source edit as a whole (a relation over runtime trees); the step that selects and replaces the statement is decided",
@@ -721,25 +758,7 @@ func checkC20(w *World, r *Report) {
 								r.Fail("R20.5", what, in.Pos(), "predicate is not a named function: "+a.String()+" — cannot show it is a kind test")
 								continue
 							}
-							bad := ""
-							if len(pf.Params) != 1 || pf.Blocks == nil {
-								bad = "unexpected shape"
-							} else {
-								for _, ref := range *pf.Params[0].Referrers() {
-									switch ref.(type) {
-									case *ssa.TypeAssert, *ssa.DebugRef:
-									default:
-										bad = "uses its argument in `" + ref.String() + "`"
-									}
-								}
-								for _, bb := range pf.Blocks {
-									for _, ii := range bb.Instrs {
-										if _, isCall := ii.(ssa.CallInstruction); isCall {
-											bad = "calls " + ii.String()
-										}
-									}
-								}
-							}
+							bad := c20KindTest(pf, 0)
 							r.Check(bad == "", "R20.5", what, in.Pos(), pf.Name()+": pure kind test", pf.Name()+" "+bad+": which children a choice/case/container keeps depends on node content, so a node whose content was pruned by the filter is attached differently than in the unfiltered compile")
 						}
 					}
